@@ -14,7 +14,7 @@ def launchesPromptIn (e : EnvIn) : Bool := e.roles.all (fun r => r.kind == .call
       `C06_failed_create_clean_code` have no hook hypothesis: finding destroy_hooks_unreleased is fixed);
     * a task neither killed nor ended nor in the roster is explained iff the environment's deployment was
       scripted to be given up while tasks were still starting (launch_pending_leak). -/
-def explain (sc : Scenario) (_names : List String) (k : Nat) (keep : Bool) (v : View) : Option String :=
+def explain (sc : Scenario) (_names : List String) (k : Nat) (keep : Bool) (v : View) (strict : Bool := false) : Option String :=
   match sc.envs[k]? with
   | none => none
   | some e =>
@@ -22,23 +22,34 @@ def explain (sc : Scenario) (_names : List String) (k : Nat) (keep : Bool) (v : 
     let ownedRows := v.roster.filter (fun r => decide (r.owner = some k))
     let leaks := if keep then [] else v.master.filter (fun m => !(decide (m.label ≠ k) || m.killed || decide (m.mesos = .terminal)
         || v.roster.any (fun r => decide (r.task = m.task) && decide (r.owner = none))))
+    -- a destroy that answered success: a task of the environment that is still running without a KILL and sits in the
+    -- roster was put back by a kill that failed — never explained (the request had to answer an error)
+    let putBack := if keep || !strict then [] else v.master.filter (fun m => !(decide (m.label ≠ k) || m.killed || decide (m.mesos = .terminal))
+        && v.roster.any (fun r => decide (r.task = m.task) && decide (r.owner = none)))
     let dets := !v.dets.all (fun d => v.envs.any (fun E => decide (d ∈ E.dets)))
     let calls := !v.calls.all (fun c => decide (c.1 ≠ k) || decide (c.2.1 = c.2.2))
     if listed || dets || calls then none
     else if !ownedRows.isEmpty then none
+    else if !putBack.isEmpty then none
     else if !leaks.isEmpty && launchesPromptIn e then none
     else if !leaks.isEmpty then some "launch_pending_leak"
     else none
 
-/-- What the round's results oblige: environments that must be clean afterwards. -/
+/-- What the round's results oblige: the creations that failed (the environment must be clean afterwards). -/
 def claims (c : RoundCtx) : List (Nat × Bool) :=
   (c.ops.zipIdx).flatMap (fun p =>
     match p.1, c.ro.results.getD p.2 .hang with
-    | .destroy k _ _ kp, .ok => [(k, kp)]
     | .new k, .err _ => [(k, false)]
     -- a creation and a destroy issued while it was in flight: each answer obliges on its own
-    | .newd k _ _ kp, .nd cr dr _ =>
-      (match dr with | .ok => [(k, kp)] | _ => []) ++ (match cr with | .err _ => [(k, false)] | _ => [])
+    | .newd k _ _ _, .nd cr _ _ => (match cr with | .err _ => [(k, false)] | _ => [])
+    | _, _ => [])
+
+/-- … and the destroy requests that answered success (clean, and every task killed unless kept). -/
+def destroyClaims (c : RoundCtx) : List (Nat × Bool) :=
+  (c.ops.zipIdx).flatMap (fun p =>
+    match p.1, c.ro.results.getD p.2 .hang with
+    | .destroy k _ _ kp, .ok => [(k, kp)]
+    | .newd k _ _ kp, .nd _ dr _ => (match dr with | .ok => [(k, kp)] | _ => [])
     | _, _ => [])
 
 def judge (sc : Scenario) (ctxs : List RoundCtx) : Bool × String :=
@@ -47,7 +58,8 @@ def judge (sc : Scenario) (ctxs : List RoundCtx) : Bool × String :=
     | [] => (true, "-")
     | c :: rest =>
       let cl := claims c
-      if specC06Round cl c.hungNow c.ro.hk c.after then go rest
+      let dl := destroyClaims c
+      if specC06Round cl dl c.hungNow c.ro.hk c.after then go rest
       -- requests that do not return because the environment manager's mutex is deadlocked (the core's own goroutine dump
       -- showed a TeardownEnvironment waiting for a read lock it already holds behind a waiting writer): open finding
       -- teardown_recursive_rlock (C06_finding_teardown_recursive_rlock, C06_lookup_is_code)
@@ -57,7 +69,9 @@ def judge (sc : Scenario) (ctxs : List RoundCtx) : Bool × String :=
       else if c.after.crashed || !hooksAfterRelease c.ro.hk || c.hungNow then (false, "-")
       else
         let bad := cl.filter (fun x => !cleanAfter x.1 x.2 c.after)
+        let badD := dl.filter (fun x => !destroyedClean x.1 x.2 c.after)
         let ex := bad.map (fun x => explain sc c.names x.1 x.2 c.after)
+          ++ badD.map (fun x => explain sc c.names x.1 x.2 c.after true)
         if ex.all Option.isSome then (false, (ex.head?.getD none).getD "-") else (false, "-")
   go ctxs
 
